@@ -1,5 +1,11 @@
 package main
 
+import (
+	"go/types"
+	"golang.org/x/tools/go/ssa"
+	"strings"
+)
+
 // rules shared by several properties; filled in below
 func ruleCoinHoursArith(r *Run, rule string)    { arithObligations(r, rule, "coin.UxOut.CoinHours") }
 func ruleTxErrorDiscipline(r *Run, rule string) { txErrorDiscipline(r, rule) }
@@ -10,4 +16,102 @@ func ruleNullPredicates(r *Run, rule string, fns ...string) {
 	for _, f := range fns {
 		r.ReturnShape(rule, f, 0, ShapeCase{"", "($0 == zero)"})
 	}
+}
+
+// mapOrderLeaks: functions (of the given package prefixes) that return a slice assembled while ranging over
+// a map without sorting it before the return: the order of the result differs from call to call.
+func mapOrderLeaks(p *Program, prefixes ...string) (checked int, leaks []string, pos []ssa.Instruction) {
+	for _, fn := range p.ModFns {
+		name := FnName(fn)
+		ok := false
+		for _, pre := range prefixes {
+			if strings.HasPrefix(name, pre) {
+				ok = true
+			}
+		}
+		if !ok {
+			continue
+		}
+		ff := p.Facts(fn)
+		// loops driven by a map range
+		mapLoop := map[*Loop]bool{}
+		for _, b := range fn.Blocks {
+			for _, in := range b.Instrs {
+				if nx, isNext := in.(*ssa.Next); isNext && !nx.IsString {
+					if rg, ok := nx.Iter.(*ssa.Range); ok {
+						if _, isMap := rg.X.Type().Underlying().(*types.Map); isMap {
+							if lp := ff.innermost[b]; lp != nil {
+								mapLoop[lp] = true
+							}
+						}
+					}
+				}
+			}
+		}
+		if len(mapLoop) == 0 {
+			continue
+		}
+		checked++
+		// values returned
+		for _, b := range fn.Blocks {
+			ret, isRet := b.Instrs[len(b.Instrs)-1].(*ssa.Return)
+			if !isRet {
+				continue
+			}
+			for _, res := range ret.Results {
+				if _, isSlice := res.Type().Underlying().(*types.Slice); !isSlice {
+					continue
+				}
+				// does the value come from an append inside a map-range loop?
+				seen := map[ssa.Value]bool{}
+				var app *ssa.Call
+				var walk func(v ssa.Value)
+				walk = func(v ssa.Value) {
+					if v == nil || seen[v] || app != nil {
+						return
+					}
+					seen[v] = true
+					switch x := v.(type) {
+					case *ssa.Phi:
+						for _, e := range x.Edges {
+							walk(e)
+						}
+					case *ssa.Call:
+						if calleeName(&x.Call) == "append" {
+							for lp := ff.innermost[x.Block()]; lp != nil; lp = lp.Parent {
+								if mapLoop[lp] {
+									app = x
+								}
+							}
+							walk(x.Call.Args[0])
+						}
+					case *ssa.Slice:
+						walk(x.X)
+					}
+				}
+				walk(res)
+				if app == nil {
+					continue
+				}
+				// sorted before the return?
+				rt := ff.Term(res)
+				sorted := false
+				for _, bb := range fn.Blocks {
+					for _, in := range bb.Instrs {
+						if c, ok := in.(*ssa.Call); ok && strings.HasPrefix(calleeName(&c.Call), "sort.") && len(c.Call.Args) > 0 {
+							at := ff.Term(c.Call.Args[0])
+							if at == rt || strings.Contains(at, rt) || strings.Contains(rt, at) {
+								sorted = true
+							}
+						}
+					}
+				}
+				if !sorted {
+					leaks = append(leaks, name+": returns "+trunc(rt, 100)+" built while ranging over a map, unsorted")
+					pos = append(pos, app)
+				}
+			}
+		}
+	}
+	return
 }
